@@ -98,8 +98,19 @@ import HexVerif.X.Sem
     right-hand side, `return` value and as the condition of `if` / `while` (`CondOK` now leads from
     the state before to the state after the condition, or to termination inside it).  The operator
     shapes are proved once for triples `ExecT` with a state before and a state after.
-  Open: local `val`s and local arrays, `and` / `or` over an impure call, a call of an impure callee in
-  another actual than the first, calls inside the actuals of a call that is an operand;
+    SYSTEM CALL 2 (INPUT) AS AN EXPRESSION: `2(s)` and `get(s)` through a constant, as a right-hand side
+    and as the call of an expression of the class above (`execX_sys`).
+    ONE ACTUAL WITH CALLS NEXT TO CONSTANTS (V2 and V3): in a user call, a system-call statement or a
+    call through a constant, one actual - at any position - may be an expression of the class above
+    (class `ipE5` / `oneImp5`, mutually recursive: `put(get(0), 0)`, `exit(fib(get(0)))`,
+    `p(1, f(g(x)) + 1)`), the others constants; again exactly what `X.orderOk` allows.
+    `ActPhase` (the two passes over the actuals) serves user calls (`argsOK_of_phase`) and system
+    calls (`execS_syscall_phase`, `exec_systail`).
+    Of the repository's tests/x programs, bubblesort, echo_char, exit, fib, hello_prints, hello_putval,
+    printhex and printn are in the class V3 with a passing check; the others are outside because of
+    constructs whose value X leaves undefined (two impure actuals, an impure call next to a variable).
+  Open: local `val`s and local arrays, `and` / `or` over an impure call, `a[i] := f(x)` with an impure
+  call;
   replacing the reflective checks by a proof that they always succeed.
 -/
 namespace Hex.C01
@@ -556,6 +567,41 @@ example : ∃ img, Xcmp.compile demoIn = .ok img := by
   | ok img => exact ⟨img, rfl⟩
   | error e =>
     have : (match Xcmp.compile demoIn with | .ok _ => true | .error _ => false) = true := by decide +kernel
+    rw [h] at this
+    simp at this
+
+/-- `val put = 1; val get = 2; var n;
+     func inc(val d) is { n := n + d; return n }
+     proc show(val a, val c) is put(c, a)
+     proc main() is
+     { n := 0; put(get(0), 0); show(0, inc(inc(3) + 1) - 2); put(65 + inc(get(0)), 0); 0(inc(inc(inc(1)))) }` -/
+def demoNest : X.Program :=
+  { globals := [.val "put" (.num 1), .val "get" (.num 2), .var "n"],
+    procs := [
+      { isFunc := true, name := "inc", formals := [.val "d"], locals := [],
+        body := .seq [.assign "n" (.bin .plus (.name "n") (.name "d")), .ret (.name "n")] },
+      { isFunc := false, name := "show", formals := [.val "a", .val "c"], locals := [],
+        body := .call "put" [.name "c", .name "a"] },
+      { isFunc := false, name := "main", formals := [], locals := [],
+        body := .seq [.assign "n" (.num 0),
+                      .call "put" [.call "get" [.num 0], .num 0],
+                      .call "show" [.num 0, .bin .minus (.call "inc" [.bin .plus (.call "inc" [.num 3]) (.num 1)]) (.num 2)],
+                      .call "put" [.bin .plus (.num 65) (.call "inc" [.call "get" [.num 0]]), .num 0],
+                      .syscall 0 [.call "inc" [.call "inc" [.call "inc" [.num 1]]]]] }] }
+
+/-! Non-vacuity for calls inside actuals, of any callee and nested: `demoNest` (a system call as the
+    actual of a system call; a call with effects - nested, under operators - as the SECOND actual
+    of a procedure next to a constant; calls nested three deep as the actual of `exit`) is in the
+    class V2; on the input "A7" it echoes `A`, writes two more bytes and exits with 252. -/
+example : C01s.v2Ok demoNest = true := by decide +kernel
+example : (match X.run demoNest ⟨[65, 55], fun _ => []⟩ 5000 with
+    | .defined β => β.exit == 252 && β.events.length == 5 && β.stdinConsumed == 2
+    | _ => false) = true := by decide +kernel
+example : ∃ img, Xcmp.compile demoNest = .ok img := by
+  cases h : Xcmp.compile demoNest with
+  | ok img => exact ⟨img, rfl⟩
+  | error e =>
+    have : (match Xcmp.compile demoNest with | .ok _ => true | .error _ => false) = true := by decide +kernel
     rw [h] at this
     simp at this
 
